@@ -56,12 +56,14 @@ def skipped(ctx, reason):
 
 
 def exh_cases(tier):
-    cs = [{"k": "exh", "prog": "batch_total", "a": [1, 2, 3], "b": []},
-          {"k": "exh", "prog": "batch_noorder", "a": [1, 2, 3], "b": []},
+    # every program costs one cargo invocation of the simulator (~20 s quiet): the quick tier runs
+    # three (the single-tick TotalOrder program is subsumed by two_ticks / two_hooks)
+    cs = [{"k": "exh", "prog": "batch_noorder", "a": [1, 2, 3], "b": []},
           {"k": "exh", "prog": "two_ticks", "a": [1, 2], "b": [7]},
           {"k": "exh", "prog": "two_hooks", "a": [1, 2], "b": [7]}]
     if tier == "thorough":
-        cs += [{"k": "exh", "prog": "batch_total", "a": [1, 2, 3, 4, 5], "b": []},
+        cs += [{"k": "exh", "prog": "batch_total", "a": [1, 2, 3], "b": []},
+               {"k": "exh", "prog": "batch_total", "a": [1, 2, 3, 4, 5], "b": []},
                {"k": "exh", "prog": "batch_noorder", "a": [1, 2], "b": []},
                {"k": "exh", "prog": "two_ticks", "a": [1, 2], "b": [7, 8]},
                {"k": "exh", "prog": "two_ticks", "a": [1, 2, 3], "b": [7]},
@@ -102,10 +104,11 @@ def run_replay(ctx, rng):
         return skipped(ctx, why)
     progs = [("batch_total", [1, 2, 3, 4], []), ("batch_noorder", [1, 2, 3], []), ("two_ticks", [1, 2], [7, 8]),
              ("two_hooks", [1, 2, 3], [7, 8])]
-    n = 4 if ctx.tier == "quick" else 16
+    n = 2 if ctx.tier == "quick" else 16
+    off = rng.below(len(progs))
     cases = []
     for i in range(n):
-        p, a, b = progs[i % len(progs)]
+        p, a, b = progs[(off + 2 * i + i // 2) % len(progs)]
         cases.append({"k": "bytes", "prog": p, "a": a, "b": b, "reps": 2,
                       "bytes": [rng.below(256) for _ in range(24 + rng.below(40))]})
     first, why = run_cases(ctx, binary, cases, "runs", "e2e_a")
